@@ -7,6 +7,8 @@
 pub(crate) mod support;
 mod c31_recovery;
 mod c08_eval;
+pub(crate) mod stream_model;
+mod ll_core;
 
 // counterexample replay (written by the runner for `cargo kani playback`, removed afterwards)
 mod playback_gen;
